@@ -160,13 +160,18 @@ def build_impl(spec, start=None):
     kw = {spec["budget_kind"]: spec["budget"]}
     if start:
         kw.update(start)
+    drop_last = spec["drop_last"]
+    if spec.get("dl_form") == "int":
+        drop_last = int(drop_last)  # truthy / falsy values other than the two bool singletons
+    elif spec.get("dl_form") == "np":
+        drop_last = np.bool_(drop_last)
     if spec.get("call") == "positional":
         # documented order: main_sampler, batch_size, configs, drop_last, main_collator, epochs, updates, samples, start_epoch,
         # start_update, start_sample, drop_last_batch_size
-        s = InterleavedSampler(main, spec["B"], configs, spec["drop_last"], spec.get("_main_collator"), kw.get("epochs"), kw.get("updates"),
+        s = InterleavedSampler(main, spec["B"], configs, drop_last, spec.get("_main_collator"), kw.get("epochs"), kw.get("updates"),
                                kw.get("samples"), kw.get("start_epoch"), kw.get("start_update"), kw.get("start_sample"), spec.get("dlbs"))
     else:
-        s = InterleavedSampler(main_sampler=main, batch_size=spec["B"], configs=configs, drop_last=spec["drop_last"],
+        s = InterleavedSampler(main_sampler=main, batch_size=spec["B"], configs=configs, drop_last=drop_last,
                                drop_last_batch_size=spec.get("dlbs"), main_collator=spec.get("_main_collator"), **kw)
     return s, main
 
@@ -301,4 +306,7 @@ def full_spec(draw, max_configs=4, small=False, allow_zero_budget=True, single_k
         g["budget"] = 0
     if draw(st.integers(0, 3)) == 0:
         g["call"] = "positional"
+    form = draw(st.sampled_from([None, None, None, "int", "np"]))
+    if form:
+        g["dl_form"] = form
     return g
